@@ -180,6 +180,7 @@ func main() {
 		die("%v", err)
 	}
 	fmt.Printf("instrument: %d yield sites, %d map ranges rewritten, %d globals registered\n", len(sites), nMap, nGlobals)
+	fmt.Printf("instrument: gostmts=%d\n", nGoStmts)
 }
 
 func uniq(s []string) []string {
@@ -219,6 +220,8 @@ func yieldStmt(fset *token.FileSet, rel string, pos token.Pos, kind string) ast.
 	}}
 }
 
+var nGoStmts int
+
 func insertYields(fset *token.FileSet, f *ast.File, rel string) {
 	ast.Inspect(f, func(n ast.Node) bool {
 		switch x := n.(type) {
@@ -228,6 +231,9 @@ func insertYields(fset *token.FileSet, f *ast.File, rel string) {
 			}
 		case *ast.FuncLit:
 			x.Body.List = append([]ast.Stmt{yieldStmt(fset, rel, x.Pos(), "fn")}, x.Body.List...)
+		case *ast.GoStmt:
+			// a goroutine of the library's own: the simulator does not schedule it (DESIGN §9.7)
+			nGoStmts++
 		case *ast.ForStmt:
 			x.Body.List = append([]ast.Stmt{yieldStmt(fset, rel, x.Pos(), "loop")}, x.Body.List...)
 		case *ast.RangeStmt:
